@@ -30,6 +30,10 @@ class Marker(Exception):
     pass
 
 
+class MarkerBase(BaseException):
+    """A fault that is not an `Exception` subclass (like KeyboardInterrupt / SystemExit raised inside the user's model)."""
+
+
 @st.composite
 def cases(draw, rl):
     sp = draw(gen.space_spec(max_d=2, max_m=30))
@@ -43,7 +47,8 @@ def cases(draw, rl):
            "E": draw(st.integers(1, 2)), "seed": draw(st.integers(0, 2**32 - 2)), "n_jobs": 1, "verbose": False}
     if rl:
         cfg["rl"] = {"alpha": -1, "eps": draw(st.sampled_from([0.0, 0.5])), "agent_seed": 3, "sched_seed": 4}
-    return {"cfg": cfg, "n": draw(st.integers(1, 6)), "folder": (not rl) and draw(st.booleans())}
+    return {"cfg": cfg, "n": draw(st.integers(1, 6)), "folder": (not rl) and draw(st.booleans()),
+            "base_exception": draw(st.sampled_from([False, False, True]))}
 
 
 def instrumented(cfg, folder, fault):
@@ -146,15 +151,16 @@ def check_faults(ctx: Ctx, case):
             one = dict(case, fault=[kind, idx])
             b = batch_of[kind][idx]
             first_of_batch = idx == 0 or batch_of[kind][idx - 1] != b
-            ctx.count(sub, one, b >= 1 and not first_of_batch, [f"fault-in-{kind}", "folder" if case["folder"] else "nofolder"])
-            exc = Marker(f"{kind}#{idx}")
+            ctx.count(sub, one, b >= 1 and not first_of_batch, [f"fault-in-{kind}", "folder" if case["folder"] else "nofolder",
+                                                                "BaseException" if case.get("base_exception") else "Exception"])
+            exc = (MarkerBase if case.get("base_exception") else Marker)(f"{kind}#{idx}")
             before = set(threading.enumerate())
             cal, _, _ = instrumented(cfg, f"{root}/f{fi}" if case["folder"] else None, (kind, idx, exc))
             raised = None
             try:
                 with watchdog(20, "faulty calibrate"):
                     cal.calibrate(n)
-            except Marker as e:
+            except (Marker, MarkerBase) as e:
                 raised = e
             except Inconclusive:
                 if hung(before):
